@@ -385,8 +385,10 @@ class VirtualView(object):
         self.parent, self.f = parent, f
 
     def raw(self):
-        if self.parent.has(self.f.name) is not True:
-            return U
+        # What another expression sees when it mentions this virtual field.  The documentation does not say
+        # what a conditional virtual field yields when its condition is false ("unspecified" hole, DESIGN 2.3);
+        # the value is computed from the expression alone so that dependants are compared on defined cases only
+        # (direct observations of the field itself are wildcarded in observe()).
         return self.parent.sem.eval(self.f.expr, self.parent)
 
     def ok(self):
